@@ -69,7 +69,7 @@ pub enum LOp {
 #[derive(Clone, Debug, Serialize, Deserialize, PartialEq)]
 pub struct Scenario {
     pub cfg: SimCfg,
-    /// generated so that every connect succeeds (the trigger of known finding O4 is avoided)
+    /// historical (O4 guard, removed once the defect was fixed); always false in generated scenarios
     pub guarded: bool,
     pub hosts: usize,
     pub lops: Vec<LOp>,
@@ -101,7 +101,11 @@ pub fn o4_exposed(sc: &Scenario) -> bool {
 }
 
 fn gen_scenario(rng: &mut Rng) -> Scenario {
-    let guarded = !rng.chance(1, 20);
+    // (O4 is fixed in /repo: refusals, cancellations, partitions and listener drops everywhere)
+    let guarded = false;
+    // a third of the listener programs are orderly (bind first, an accept for everybody) so that
+    // queues of several pending requests stay frequent; the connectors and the script are unrestricted
+    let orderly = rng.chance(1, 3);
     let mut cfg = SimCfg::gen(rng, &CfgProfile { latency_range: true, random_failures: false, small_capacities: false, max_tick_ms: 20, max_latency_ticks: 10 });
     cfg.fail_rate_pm = 0;
     let lat = cfg.max_latency_ticks();
@@ -113,7 +117,7 @@ fn gen_scenario(rng: &mut Rng) -> Scenario {
     for _ in 0..n {
         let host = rng.usize(0, hosts - 1);
         let via = if host == 0 { *rng.pick(&[Via::Ip, Via::Loopback]) } else { *rng.pick(&[Via::Ip, Via::Name]) };
-        let target = if guarded { Target::Listener } else { *rng.pick(&[Target::Listener, Target::Listener, Target::Listener, Target::Listener, Target::UnboundPort, Target::Unowned]) };
+        let target = *rng.pick(&[Target::Listener, Target::Listener, Target::Listener, Target::Listener, Target::Listener, Target::Listener, Target::UnboundPort, Target::Unowned]);
         // arrival steps of different connectors differ by >= 2 ticks where the latency allows it to
         // be arranged; ties are not judged anyway
         let mut start = rng.range(1, 6 + 2 * lat) as u16;
@@ -122,12 +126,12 @@ fn gen_scenario(rng: &mut Rng) -> Scenario {
                 start += 1;
             }
         }
-        let timeout = if !guarded && rng.chance(1, 3) { Some(rng.range(1, 2 * lat + 8) as u16) } else { None };
+        let timeout = if rng.chance(1, 4) { Some(rng.range(1, 2 * lat + 8) as u16) } else { None };
         conns.push(Connector { host, via, target, start, timeout, hold: rng.range(0, 6) as u16 });
     }
     let all_loop = conns.iter().all(|c| c.via == Via::Loopback);
     let mut lops = Vec::new();
-    if guarded {
+    if orderly {
         lops.push(LOp::Bind { localhost: all_loop && rng.chance(1, 2) });
         let extra = rng.usize(0, 1);
         for _ in 0..n + extra {
@@ -154,7 +158,7 @@ fn gen_scenario(rng: &mut Rng) -> Scenario {
     let remote: Vec<usize> = conns.iter().filter(|c| c.host != 0).map(|c| c.host).collect();
     if !remote.is_empty() && rng.chance(1, 2) {
         // hold and one-way partitions are not mixed (documented as unsupported)
-        let part = !guarded && rng.chance(1, 2);
+        let part = rng.chance(1, 2);
         for _ in 0..rng.usize(1, 2) {
             let h = *rng.pick(&remote);
             let s1 = rng.range(1, 8 + 3 * lat) as u32;
@@ -567,7 +571,6 @@ fn execute(sc: &Scenario, keep: bool) -> (Report, Option<Outcome>) {
             });
         }
     }
-    probes.inc(if sc.guarded { "generated_guarded" } else { "generated_unguarded" });
     let mut rep = Report::from_log(sh.log.take());
     rep.violation = violation;
     rep.harness_error = harness_error;
@@ -1141,7 +1144,8 @@ impl Property for C12 {
         vec![
             "a one-way partition of the direction listener->connector is not generated (the handshake acknowledgement does not travel over the simulated network; the property text only speaks of 'a partitioned direction')".into(),
             "requests whose arrival step cannot be determined (sub-tick latency, same-host hand-over in a step where the listener binds or drops) are not judged for order or refusal timing".into(),
-            "95% of the scenarios are generated so that every connect succeeds (known finding O4: a failed or cancelled connect leaves a stream-table entry); 5% contain refusals, cancellations, partitions and listener drops".into(),
+            "no generator guard: the former known finding O4 (a failed or cancelled connect leaves a stream-table entry) is fixed in /repo (8fcc78f); a third of the listener programs are orderly (bind first, one accept per connector), connectors and fault scripts are unrestricted everywhere".into(),
+            "an accepted stream whose connector gave up (or whose nonce never arrives) may end with ConnectionReset / EOF / nothing: the nonce read is recorded, not judged".into(),
         ]
     }
     fn budget(tier: Tier) -> u64 {
@@ -1255,9 +1259,6 @@ impl Property for C12 {
         }
         for cfg in cfgs {
             out.push(Scenario { cfg, ..sc.clone() });
-        }
-        if sc.guarded {
-            out.retain(|c| !o4_exposed(c));
         }
         out
     }
